@@ -392,6 +392,19 @@ func (h *harness) genContext(qs []vh.GQuad, mode11 bool, base string) (*JV, map[
 		}
 		feat["ctx:prefix"] = true
 	}
+	// a term named like the scheme of an IRI of the dataset that is NOT a prefix in json-ld-1.1 (expanded
+	// definition, or a namespace not ending in a gen-delim): "urn:ex:a" must stay an absolute IRI there
+	if r.Chance(15) && len(all) > 0 {
+		v := vh.Pick(r, all)
+		if i := strings.IndexByte(v, ':'); i > 0 && !strings.HasPrefix(v[i+1:], "//") {
+			if r.Bool() {
+				put(v[:i], jobj(jm("@id", jstr(vh.Pick(r, namespaces)))))
+			} else {
+				put(v[:i], jstr("http://example.org/nodelim"))
+			}
+			feat["ctx:scheme-named-non-prefix-term"] = true
+		}
+	}
 	compact := func(iri string) string {
 		for ns, name := range prefixOf {
 			if strings.HasPrefix(iri, ns) && r.Chance(60) {
@@ -420,6 +433,38 @@ func (h *harness) genContext(qs []vh.GQuad, mode11 bool, base string) (*JV, map[
 		def := &JV{kind: jObj}
 		if !strings.Contains(name, ":") || r.Chance(50) {
 			def.ms = append(def.ms, jm("@id", jstr(compact(p))))
+		}
+		// tailor the definition to the values of the predicate in the dataset
+		if prof := profileOf(qs, p); r.Chance(60) {
+			switch {
+			case prof.allLang:
+				def.ms = append(def.ms, jm("@container", jstr("@language")))
+				feat["ctx:@container:@language"] = true
+				put(name, def)
+				feat["ctx:expanded-term"] = true
+				continue
+			case prof.listHead:
+				def.ms = append(def.ms, jm("@container", jstr("@list")))
+				feat["ctx:@container:@list"] = true
+				if prof.listItemsIRI && r.Bool() {
+					def.ms = append(def.ms, jm("@type", jstr("@id")))
+				}
+				put(name, def)
+				feat["ctx:expanded-term"] = true
+				continue
+			case prof.allIRI:
+				def.ms = append(def.ms, jm("@type", jstr(vh.Pick(r, []string{"@id", "@vocab"}))))
+				feat["ctx:@type:@id"] = true
+				put(name, def)
+				feat["ctx:expanded-term"] = true
+				continue
+			case prof.oneDatatype != "":
+				def.ms = append(def.ms, jm("@type", jstr(compact(prof.oneDatatype))))
+				feat["ctx:@type:datatype"] = true
+				put(name, def)
+				feat["ctx:expanded-term"] = true
+				continue
+			}
 		}
 		switch r.Intn(6) {
 		case 0:
@@ -520,4 +565,67 @@ func (h *harness) genChoices(qs []vh.GQuad) (choices, map[string]bool) {
 		c.context, feat = h.genContext(qs, c.mode11, c.base)
 	}
 	return c, feat
+}
+
+// profile of the objects of one predicate
+type predProfile struct {
+	allLang, allIRI, listHead, listItemsIRI bool
+	oneDatatype                             string
+}
+
+func profileOf(qs []vh.GQuad, p string) predProfile {
+	pr := predProfile{allLang: true, allIRI: true}
+	dts := map[string]bool{}
+	n := 0
+	cells := map[int]bool{}
+	for _, q := range qs {
+		if q.P.IRI == rdfNS+"first" && q.S.Kind == vh.KBNode {
+			cells[q.S.BNode] = true
+		}
+	}
+	for _, q := range qs {
+		if q.P.IRI != p {
+			continue
+		}
+		n++
+		switch q.O.Kind {
+		case vh.KIRI:
+			pr.allLang = false
+			dts["-"] = true
+			if q.O.IRI == rdfNS+"nil" {
+				pr.listHead = true
+			}
+		case vh.KBNode:
+			pr.allLang, pr.allIRI = false, false
+			dts["-"] = true
+			if cells[q.O.BNode] {
+				pr.listHead = true
+			}
+		default:
+			pr.allIRI = false
+			if q.O.DT != vh.RDFLangString {
+				pr.allLang = false
+				dts[q.O.DT] = true
+			} else {
+				dts["-"] = true
+			}
+		}
+	}
+	if n == 0 {
+		return predProfile{}
+	}
+	if len(dts) == 1 {
+		for d := range dts {
+			if d != "-" && d != vh.XSDString {
+				pr.oneDatatype = d
+			}
+		}
+	}
+	pr.listItemsIRI = true
+	for _, q := range qs {
+		if q.P.IRI == rdfNS+"first" && q.O.Kind != vh.KIRI {
+			pr.listItemsIRI = false
+		}
+	}
+	return pr
 }
